@@ -59,12 +59,16 @@ def gen(args) -> list:
         c = rnd.random()
         cal = rnd.choice(cals)
         base = {"cal": cal.id, "min_year": cal.min_year, "max_year": cal.max_year, "min_day": cal._min_days, "max_day": cal._max_days}
-        if c < 0.12:
+        if c < 0.2:
             nday = rday(cal)
+            if rnd.random() < 0.5:
+                # near a year boundary: amounts of about a year can then cross two boundaries in calendars with short years
+                yy = rnd.randint(cal.min_year + 1, cal.max_year - 1)
+                nday = min(max(LocalDate(yy, 1, 1, cal)._days_since_epoch + rnd.randint(-70, 70), cal._min_days), cal._max_days)
             d = ctor(days_since_epoch=nday, calendar=cal)
             unit = rnd.choice(["days", "weeks"])
             cc = rnd.random()
-            k = rnd.choice([0, 1, -1, 299, 300, 301, -299, -300, -301]) if cc < 0.3 else rnd.randint(-400, 400) if cc < 0.5 else \
+            k = rnd.choice([0, 1, -1, 299, 300, 301, -299, -300, -301, 353, 354, 355, 365, 366, -354, -365, -366]) if cc < 0.3 else rnd.randint(-400, 400) if cc < 0.55 else \
                 rnd.randint(-4 * 10**6, 4 * 10**6) if cc < 0.8 else rnd.choice([cal._max_days - nday, cal._min_days - nday]) + rnd.choice([-1, 0, 1]) \
                 if cc < 0.95 else rnd.choice([-1, 1]) * 10 ** rnd.randint(10, 30)
             if unit == "weeks":
